@@ -37,6 +37,10 @@ class Driver:
         self.sent_objs = []  # the objects the writer serialised (canonical), same order
         self.handled = []  # jdump of each dict given to LangServer.handle (canonical)
         self.versions = {}  # uri -> last document version sent
+        self.server_requests = []  # requests the server sent to the client: {"id", "method", "due"}
+        self.replies_sent = 0
+        self.msgs_built = 0
+        self.reply_delay = sched.get("reply_delay", 0)  # client messages sent before a request is answered
         self.handled_ops = []
         self.op_steps = {}
         self.chunks = sched.get("chunks")
@@ -73,6 +77,19 @@ class Driver:
         if not self.pending and self.plan is not None and self.handled_ops:
             sim.late_races(self.plan, self.world, self.handled_ops[-1])
         while not self.pending:
+            due = [q for q in self.server_requests if q["due"] <= self.msgs_built or self.pos >= len(self.ops)
+                   or self.ops[self.pos]["k"] != "msg"]
+            if due and not self.eof:
+                q = due[0]
+                self.server_requests.remove(q)
+                reply = {"jsonrpc": "2.0", "id": q["id"], "result": None}
+                data = frames.encode_frame(reply)
+                self.pending += data
+                self.built += len(data)
+                self.marks.append((self.built, -3, reply))
+                self.replies_sent += 1
+                ev("reply", q["id"], q["method"])
+                break
             if self.eof or self.pos >= len(self.ops):
                 self.eof_reads += 1
                 if self.eof_reads > 2000:
@@ -120,6 +137,8 @@ class Driver:
         newly = 0
         while self.marks and self.marks[0][0] <= self.delivered:
             self.last_boundary, k, obj = self.marks.popleft()
+            if k == -3:
+                continue  # the client's answer to a server request
             self.sent.append(k)
             self.sent_objs.append(obj)
             newly += 1
@@ -176,6 +195,7 @@ class Driver:
             self.pending += data
             self.built += len(data)
             self.marks.append((self.built, self.pos, m))
+            self.msgs_built += 1
             self._client_effects(self.pos, m)
             ev("msg", self.pos, m.get("method"), m.get("id"))
             self.pos += 1
@@ -258,6 +278,11 @@ class Driver:
                 r = f.get("result")
                 if isinstance(r, dict) and isinstance(r.get("capabilities"), dict):
                     self.announced_sync = r["capabilities"].get("textDocumentSync")
+                if isinstance(f.get("method"), str) and f.get("id") is not None:
+                    # a request of the server to the client: a conforming client answers it
+                    # (here: after `reply_delay` more messages of its own, which are already under way)
+                    self.server_requests.append({"id": f["id"], "method": f["method"],
+                                                 "due": self.msgs_built + self.reply_delay})
         for h in self.idle_hooks:
             h(self)
 
@@ -325,6 +350,8 @@ def _wrap_handle(server, driver: Driver):
     orig = server.handle
 
     def handle(request):
+        if isinstance(request, dict) and "method" not in request and "id" in request and driver.replies_sent:
+            return orig(request)  # the client's answer to a server request, not a message of the schedule
         S.sim += 1
         try:
             idx = len(driver.handled)
